@@ -12,7 +12,7 @@ def parse(path, kind):
             if m:
                 rows.append(dict(what=m.group(2), check=m.group(3), exit=int(m.group(4)), vline=m.group(6), detail=m.group(7)))
         else:
-            m = re.match(r'(\S+) seeded (\S+) check=(\S+) tier=(\S+) exit=(\d+) :: (.*?) :: (.*)', l.strip())
+            m = re.match(r'(\S+) (?:seeded|neutral) (\S+) check=(\S+) tier=(\S+) exit=(\d+) :: (.*?) :: (.*)', l.strip())
             if m:
                 rows.append(dict(what=m.group(2), check=m.group(3), tier=m.group(4), exit=int(m.group(5)), vline=m.group(6), detail=m.group(7)))
     return rows
@@ -60,3 +60,24 @@ n = len(rows); c = sum(1 for r in rows if r['exit'] == 1)
 nf = sum(1 for r in rows if r['exit'] == 1 and 'no-failing-input-found' in r['vline'])
 oc = sum(1 for r in rows if r['exit'] != 1 and r['what'] in cross)
 print('\n%d of %d seeded changes are reported by the check of the property they target (quick tier), %d of those without a failing input (broken obligation or correspondence only); %d more are reported by the check of another property.' % (c, n, nf, oc))
+
+nrows = parse('/verif/selftest/neutral.log', 'seeded')
+if nrows:
+    print('\n#### Behaviour-preserving changes (sub-agents; the property holds with every one of them)\n')
+    print('| change | what was changed | own check | reported as |')
+    print('|---|---|---|---|')
+    for r in nrows:
+        title = ''
+        rp = '/verif/neutral/%s/README.md' % r['what']
+        if os.path.exists(rp):
+            for l in open(rp):
+                l = l.strip().lstrip('#').strip()
+                if l:
+                    title = l
+                    break
+        v = 'exit 0' if r['exit'] == 0 else ('VIOLATION' if r['exit'] == 1 else 'infrastructure error')
+        if 'no-failing-input-found' in r['vline']:
+            v += ' (no-failing-input-found)'
+        print('| %s | %s | %s %s | %s |' % (r['what'], title[:110], r['check'], v, sig(r['detail']) if r['exit'] == 1 else ''))
+    a = sum(1 for r in nrows if r['exit'] != 0)
+    print('\n%d of %d behaviour-preserving changes make the check of the property whose code they touch report a violation (all as `no-failing-input-found`: an obligation on the regenerated facts no longer checks and the search finds no failing input).' % (a, len(nrows)))
